@@ -847,7 +847,7 @@ class spawn(SpawnBase):
                     data = input_filter(data)
                 i = -1
                 if escape_character is not None:
-                    i = data.rfind(escape_character)
+                    i = data.find(escape_character)
                 if i != -1:
                     data = data[:i]
                     if data:
